@@ -50,10 +50,10 @@ def rdLE (mem : Nat → Nat) (addr : Nat) : Nat → Nat
   | 0 => 0
   | k+1 => rdLE mem addr k + mem ((addr + k) % 2 ^ 64) * 256 ^ k
 
-def wrLE (mem : Nat → Nat) (addr value : Nat) (count : Nat) : Nat → Nat :=
-  fun a => match (List.range count).reverse.find? (fun i => (addr + i) % 2 ^ 64 = a) with
-    | some i => (value / 256 ^ i) % 256
-    | none => mem a
+/-- store the `count` low bytes of `value` at `addr, addr+1, ...` (addresses modulo 2^64) -/
+def wrLE (mem : Nat → Nat) (addr value : Nat) : Nat → Nat → Nat
+  | 0 => mem
+  | k+1 => fun a => if a = (addr + k) % 2 ^ 64 then (value / 256 ^ k) % 256 else wrLE mem addr value k a
 
 /-- definitions that produce a wire value within a cycle -/
 inductive Def where
